@@ -180,7 +180,7 @@ pub fn cache_concurrent(seed: u64, threads: usize, ops: usize, keys: usize, a_ou
                 for phase in 0..2 {
                     for i in 0..ops {
                         let k = rng.usize(keys);
-                        let (s, d) = ((k % 3) as u8, (k / 3 % 2) as u8);
+                        let (s, d) = ((k % 32) as u8, (k / 32 % 2) as u8);
                         spin(&mut rng);
                         if phase == 1 && t == 0 && i == ops / 2 { cache.clear_layer(2); }
                         if rng.chance(1, 2) {
@@ -327,7 +327,8 @@ pub fn concurrent_round(rng: &mut Rng, a: &mut Acc, small: bool) {
     let ops = if small { 40 } else { 50 + rng.usize(250) };
     let seed = rng.next() >> 8;
     let which = rng.chance(1, 2);
-    let keys = 1 + rng.usize(3);
+    // few keys (maximal contention on one entry) or many (all the shards of the map, growth of the tables)
+    let keys = if rng.chance(1, 4) { 64 } else { 1 + rng.usize(3) };
     let uv = rng.chance(1, 2);
     // a panic of a library call inside one of the threads propagates out of the scope: it is a violation
     let round = std::panic::catch_unwind(std::panic::AssertUnwindSafe(|| { let mut v = vec![]; let r = if which { cache_concurrent(seed, threads, ops, keys, &mut v) } else { dominance_concurrent(seed, threads, ops, uv, &mut v) }; (r, v) }));
